@@ -56,6 +56,15 @@ func (g *Gen) bitAnd(a, b Term) Term {
 	if c, ok := a.isConst(); ok && c.Sign() >= 0 && nonNeg(b) {
 		return andConst(b, c)
 	}
+	// disjoint bit ranges: one operand is a multiple of 2^k and the other is below 2^k
+	if nonNeg(a) && nonNeg(b) {
+		if b.Hi != nil && uint(b.Hi.BitLen()) <= termPow2(a) {
+			return intLit(0)
+		}
+		if a.Hi != nil && uint(a.Hi.BitLen()) <= termPow2(b) {
+			return intLit(0)
+		}
+	}
 	r := app("band", SInt, a, b)
 	if g.noName == 0 && nonNeg(a) && nonNeg(b) {
 		r = g.name("band", r)
